@@ -89,6 +89,14 @@ Theorem C33_trim_prefix_width : forall (ofb : bytes -> Z) (trimb : bytes -> Z ->
 Proof. exact trim_prefix_width. Qed.
 Print Assumptions C33_trim_prefix_width.
 
+(* ... and for the executed instance (wcwidth.Of / wcwidth.Trim over the width
+   table; the contract is discharged by the C34 theorems) *)
+Theorem C33_trim_prefix_width_wcwidth : forall t n,
+  (exists rest, content t = content (trim_text t n) ++ rest)
+  /\ (0 <= n -> text_width (trim_text t n) <= n).
+Proof. exact trim_prefix_width_wcwidth. Qed.
+Print Assumptions C33_trim_prefix_width_wcwidth.
+
 (* FULL STATEMENT (false for the code as it is, see C33_trim_normal_refuted):
      forall t n, Normal t -> Normal (trim_text t n).
    Proved instead: the result is normal once a trailing empty segment is dropped
